@@ -1,11 +1,28 @@
-(* Wire-level wrappers of property C08: decode arguments from sx, run the model, encode.
-   Dispatch.v routes a block of unit numbers here; [k] is the offset inside the block. *)
+(* Wire-level wrappers of property C08: the verified selection-shape checker (Proofs/Shape_proofs.v
+   sel_shape_ok, reflected in sel_shape) evaluated on the implementation's results. *)
 From Coq Require Import ZArith QArith List Bool.
-From VL Require Import Prelude.Sx.
+From VL Require Import Prelude.Sx Prelude.PyDict Model.GetNBest Proofs.Shape_proofs.
 Import ListNotations.
 Open Scope Z_scope.
 
+Definition as_res (s : sx) : option (res C) :=
+  match s with
+  | A (Zpos p) => Some (Cand p)
+  | L l => match opt_map as_pos l with Some m => Some (TieR m) | None => None end
+  | _ => None
+  end.
+
+(* unit 110: (cands n result) -> 1 / 0 *)
 Definition u_c08 (k : Z) (a : sx) : sx :=
   match k with
+  | 0 =>
+      match a with
+      | L [cs; n; r] =>
+          match as_listof as_pos cs, as_nat n, as_listof as_res r with
+          | Some cands, Some n, Some r => ok (of_bool (sel_shape_ok cands n r))
+          | _, _, _ => bad_input
+          end
+      | _ => bad_input
+      end
   | _ => bad_input
   end.
